@@ -334,6 +334,7 @@ type c06JsSeq struct {
 	src      strings.Builder
 	lineHead bool // only whitespace since the last line terminator (or the start)
 	lastSep  int  // 0 none, 1 ws, 2 lt, 3 multi-line comment, 4 single-line comment (needs lt next)
+	atEnd    bool // the separator being emitted ends the input: a single-line comment may end at EOF
 }
 
 func (g *c06JsSeq) put(tt js.TokenType, text string) {
@@ -410,7 +411,7 @@ func (g *c06JsSeq) sep(must bool) {
 		}
 		g.lastSep = k
 	}
-	if g.lastSep == 4 {
+	if g.lastSep == 4 && !(g.atEnd && r.Bool()) {
 		g.put(js.LineTerminatorToken, r.PickStr(c06JsLtPieces))
 		g.lineHead = true
 		g.lastSep = 2
@@ -455,7 +456,7 @@ func (g *c06JsSeq) unit(tt js.TokenType, text string) {
 // item emits one expression-like item; braces and parentheses only in balanced form when inTpl.
 func (g *c06JsSeq) item(depth int, inTpl bool) {
 	r := g.r
-	switch k := r.Intn(14); {
+	switch k := r.Intn(15); {
 	case k <= 2:
 		id := c06GenJsIdent(r)
 		if tt, ok := js.Keywords[id]; ok {
@@ -490,8 +491,11 @@ func (g *c06JsSeq) item(depth int, inTpl bool) {
 			g.items(r.Intn(3), depth+1, inTpl)
 			g.unit(js.CloseBraceToken, "}")
 		}
-	case k >= 12 && depth < 3:
+	case (k == 12 || k == 13) && depth < 3:
 		g.template(depth)
+	case k == 14:
+		// a regular expression literal: the driver calls Next ('/' or '/=') and then RegExp()
+		g.unit(js.RegExpToken, c06GenJsRegex(r, r.Chance(1, 4)))
 	default:
 		g.unit(js.IdentifierToken, "v")
 	}
@@ -527,7 +531,8 @@ func c06GenJsSeq(r *Rng, n int) ([]c06JsTok, string) {
 		g.sep(true)
 	}
 	g.items(n, 0, false)
-	if r.Chance(1, 3) {
+	if r.Chance(1, 2) {
+		g.atEnd = true
 		g.sep(true)
 	}
 	return g.toks, g.src.String()
@@ -739,6 +744,31 @@ func c06JsLexAll(d []byte, regexAfterSlash bool) (toks []c06JsLexed, err error, 
 	return
 }
 
+// c06JsLexSeq lexes d the way a parser would that knows where the regular expression literals of want are:
+// Next, and RegExp() after the '/' or '/=' that opens one. first reports a wrong opening token.
+func c06JsLexSeq(d []byte, want []c06JsTok) (toks []c06JsLexed, err error, first string, panicked interface{}) {
+	in := parse.NewInputBytes(append(make([]byte, 0, len(d)+1), d...))
+	l := js.NewLexer(in)
+	panicked = catch(func() {
+		for i := 0; i < len(d)+3; i++ {
+			tt, data := l.Next()
+			if i < len(want) && want[i].tt == js.RegExpToken && (tt == js.DivToken || tt == js.DivEqToken) {
+				wantEq := len(want[i].text) > 1 && want[i].text[1] == '='
+				if (tt == js.DivEqToken) != wantEq && first == "" {
+					first = fmt.Sprintf("Next returned %v at the start of the literal %q", tt, want[i].text)
+				}
+				tt, data = l.RegExp()
+			}
+			toks = append(toks, c06JsLexed{tt, data, in.Offset()})
+			if tt == js.ErrorToken {
+				err = l.Err()
+				return
+			}
+		}
+	})
+	return
+}
+
 func c06JsHasLT(b []byte) bool {
 	return bytes.ContainsAny(b, "\n\r") || bytes.Contains(b, []byte("\u2028")) || bytes.Contains(b, []byte("\u2029"))
 }
@@ -917,11 +947,13 @@ func c06Oracle(r *Rng, tier string, rep *Report) {
 	for it := 0; it < n; it++ {
 		want, src := c06GenJsSeq(r, 1+it%12)
 		d := []byte(src)
-		got, err, p := c06JsLexAll(d, false)
+		got, err, first, p := c06JsLexSeq(d, want)
 		replay := map[string]interface{}{"input": q(d), "hex": hx(d)}
 		bad := ""
 		if p != nil {
 			bad = fmt.Sprintf("panic %v", p)
+		} else if first != "" {
+			bad = first
 		} else if len(got) != len(want)+1 {
 			bad = fmt.Sprintf("%d tokens, expected %d", len(got)-1, len(want))
 		} else if err != io.EOF || got[len(got)-1].data != nil {
@@ -1055,6 +1087,46 @@ func c06Oracle(r *Rng, tier string, rep *Report) {
 			rep.Violate(trunc(key, 60), fmt.Sprintf("operator run %q: %s", src, bad), map[string]interface{}{"input": src})
 		}
 		rep.Eval(src, len(want) >= 3, "munch")
+	}
+	// 6. ECMA-262 B.1.1: SingleLineHTMLCloseComment :: LineTerminatorSequence HTMLCloseComment,
+	// HTMLCloseComment :: WhiteSpaceSequence? SingleLineDelimitedCommentSequence? "-->" SingleLineCommentChars?
+	// — after a line terminator, whitespace and "/*...*/" comments without a line terminator, "-->" opens a comment
+	for it := 0; it < 300; it++ {
+		var sb strings.Builder
+		sb.WriteString(r.PickStr([]string{"", "a", "a;", "1"}))
+		sb.WriteString(r.PickStr(c06JsLtPieces))
+		if r.Bool() {
+			sb.WriteString(r.PickStr(c06JsWsPieces))
+		}
+		nc := r.Intn(3) // 0: only whitespace before "-->"
+		for i := 0; i < nc; i++ {
+			sb.WriteString("/*" + strings.ReplaceAll(r.PickStr(c06JsCommentBody), "*/", "* /") + "*/")
+			if r.Bool() {
+				sb.WriteString(r.PickStr(c06JsWsPieces))
+			}
+		}
+		at := sb.Len()
+		cl := "-->" + r.PickStr(c06JsCommentBody)
+		sb.WriteString(cl)
+		sb.WriteString(r.PickStr(c06JsLtPieces))
+		sb.WriteString("y")
+		d := []byte(sb.String())
+		toks, _, p := c06JsLexAll(d, false)
+		ok := false
+		for _, t := range toks {
+			if t.off-len(t.data) == at && t.tt == js.CommentToken && string(t.data) == cl {
+				ok = true
+			}
+		}
+		if p != nil || !ok {
+			key := "c06-htmlclose:at-line-start"
+			if nc > 0 {
+				key = "c06-htmlclose:after-comment"
+			}
+			rep.Violate(key, fmt.Sprintf("%q: %q after a line terminator (and whitespace / single-line /*...*/ comments) is not lexed as one CommentToken", d, cl),
+				map[string]interface{}{"input": q(d)})
+		}
+		rep.Eval(hx(d), nc > 0, "htmlclose")
 	}
 	// 4. comment kind, directly
 	for it := 0; it < 2000; it++ {
